@@ -12,6 +12,7 @@ import (
 	"net"
 	"strings"
 	"sync"
+	"time"
 
 	"github.com/jhump/grpctunnel/verifrt"
 	"google.golang.org/grpc"
@@ -87,7 +88,12 @@ func (n *Net) await(site string, obj any, pred func() bool) {
 		}
 		ch := n.changed
 		n.mu.Unlock()
-		<-ch
+		// free-running mode only (under the scheduler the guard held): context expiry does
+		// not bump the net, so poll
+		select {
+		case <-ch:
+		case <-time.After(5 * time.Millisecond):
+		}
 	}
 }
 
@@ -117,6 +123,7 @@ type MStream struct {
 	Broken     bool
 
 	negReq, negResp bool // the endpoints saw the negotiate key in request md / response headers
+	clientDone      bool // the client observed the end of the stream (its context was cancelled by that)
 
 	// statistics for oracles
 	C2SSent, S2CSent, C2SRecv, S2CRecv int
@@ -264,18 +271,23 @@ func (c *mClientStream) Header() (metadata.MD, error) {
 		c.clientDoneLocked()
 		return nil, c.cErr
 	case c.Finished:
-		err := c.st.Err()
-		if err != nil {
-			c.clientDoneLocked()
-		}
-		return nil, err
+		// grpc-go (checked by carrier_conformance_test.go): a response without a headers
+		// frame ("trailers only") yields empty metadata and a nil error from Header(), whatever
+		// the status; the status is reported by RecvMsg
+		return metadata.MD{}, nil
 	default:
-		err := status.FromContextError(c.cctx.Err()).Err()
-		return nil, err
+		// grpc-go v1.75 (conformance-checked): when the context ends before any headers
+		// arrived, Header() returns empty metadata and a nil error; RecvMsg reports the status
+		return metadata.MD{}, nil
 	}
 }
 
-func (c *MStream) clientDoneLocked() { c.ccancel() }
+func (c *MStream) clientDoneLocked() { c.clientDone = true; c.ccancel() }
+
+// ctxEndedLocked: the caller's context ended (cancel / deadline) before the client observed
+// the end of the stream. grpc-go then reports the context error, even if the server has
+// finished meanwhile (conformance-checked).
+func (c *MStream) ctxEndedLocked() bool { return !c.clientDone && c.cctx.Err() != nil }
 
 func (c *mClientStream) Trailer() metadata.MD {
 	n := c.net
@@ -352,6 +364,9 @@ func (c *mClientStream) RecvMsg(m any) error {
 	if c.cErr != nil {
 		c.clientDoneLocked()
 		return c.cErr
+	}
+	if c.ctxEndedLocked() {
+		return status.FromContextError(c.cctx.Err()).Err()
 	}
 	if len(c.s2c) > 0 {
 		b := c.s2c[0]
